@@ -18,7 +18,7 @@ TASK_CAP_S = 240
 
 
 def configs_for(prop):
-    return ("baseline", "A", "AB") if prop in ("C09", "C11") else ("baseline", "calm", "A")
+    return ("baseline", "A", "AB", "grid") if prop in ("C09", "C11") else ("baseline", "calm", "A")
 
 
 def _worker_init():
@@ -38,7 +38,7 @@ def _task(args):
                "stats": res["stats"], "states": res["states"], "wall": dt,
                "n_steps": len(trace["steps"]),
                "trace_digest": hashlib.sha256(json.dumps(trace, sort_keys=True).encode()).hexdigest()[:16],
-               "grams": _grams(trace)}
+               "grams": _grams(trace), "grid": trace.get("grid")}
         if want_trace or vs:
             out["trace"] = trace
         return out
@@ -95,6 +95,7 @@ class Aggregate:
         self.first_seed = None
         self.last_seed = None
         self.extra = {}
+        self.grid = set()
 
     @staticmethod
     def _add(d, src):
@@ -126,6 +127,8 @@ class Aggregate:
         self.wall_sum += r["wall"]
         self.first_seed = r["seed"] if self.first_seed is None else min(self.first_seed, r["seed"])
         self.last_seed = r["seed"] if self.last_seed is None else max(self.last_seed, r["seed"])
+        if r.get("grid"):
+            self.grid.add(json.dumps(r["grid"], sort_keys=True))
         if "trace" in r and len(self.samples) < 3 and not r["violations"]:
             self.samples.append({"seed": r["seed"], "config": r["config"], "trace": _shorten_trace(r["trace"])})
 
